@@ -24,6 +24,15 @@ def rpu_exhaustive(wcfg, alphabet, maxlen, minlen=1):
             yield "rpu fixed %s %s" % (wcfg, " ".join(ops))
 
 
+def rpu_sweep(ws, span=140, base=70):
+    """window arithmetic around one accepted number: accept <base>, then every pair (b, c) of
+    numbers in 0..span - all relative positions (older/newer, inside/outside W, 63/64/65)"""
+    for w in ws:
+        for b in range(0, span + 1):
+            for c in range(0, span + 1):
+                yield "rpu fixed %s v%x v%x v%x" % (w, base, b, c)
+
+
 UNIT_ALPHABET = ["v%x" % x for x in list(range(10)) + [64, 65, 200]] + ["r"]
 
 
